@@ -300,10 +300,48 @@ def r_so(run):
     so.check_so(run, 'R-SO')
 
 
+def r03_6(run):
+    """(a) connectionLost consumes no input: nothing it calls (transitively, inside the class) feeds the line machine, completes a
+    reply or issues a command - a half-received final line is not a reply, and anything written from here goes to a dead transport;
+    (b) a submission refused because of state that connectionLost itself changes fails with the disconnect error: a test in
+    queue_command / _maybe_issue_command on an attribute connectionLost assigns, refusing with any other error, turns "submitted after
+    the loss" into a different failure"""
+    ci = proto(run)
+    cl = U(run, 'connectionLost')
+    forbidden = ('lineReceived', 'dataReceived', '_broadcast_response', '_maybe_issue_command')
+    reach = reach_units(run.idx, [cl])
+    hit = [u.name for u in reach if u is not cl and u.owner_cls is ci and u.name in forbidden]
+    direct = [src(c)[:40] for c in calls_in(cl) if dotted(c.func) in ('self.fsm.process',) or (dotted(c.func) or '').split('.')[-1] in forbidden]
+    buf = [src(a)[:30] for a in walk_unit(cl) if isinstance(a, ast.Attribute) and dotted(a) in ('self._buffer', 'self._LineOnlyReceiver__buffer')]
+    run.ob('R03.6', cl, cl.node, 'connectionLost feeds nothing to the line machine and issues nothing', not hit and not direct and not buf, slot='loss-consumes-no-input',
+           message='connectionLost reaches %s: an unterminated tail of the stream is treated as a complete reply (the in-flight command succeeds with truncated data) '
+                   'and the next queued command is written to the dead transport' % sorted(set(hit + direct + buf)))
+    lost_attrs = set(t for n in walk_unit(cl) if isinstance(n, (ast.Assign, ast.AugAssign)) for t in assigned_targets(n) if t.startswith('self.'))
+    run.floor('R03.6', 'attributes connectionLost assigns', len(lost_attrs), 3)
+    k = 0
+    for u in (U(run, 'queue_command'), U(run, '_maybe_issue_command')):
+        g = cfg_of(u)
+        for n in g.real_nodes():
+            fails = [a for a in node_asts(n) if isinstance(a, ast.Call) and (dotted(a.func) in ('defer.fail', 'fail') or callee_attr(a) == 'errback')]
+            raises = [n.ast] if n.kind == 'stmt' and isinstance(n.ast, ast.Raise) else []
+            for f in fails + raises:
+                for t, lab in g.guarded_by(n, lambda t_: True):
+                    attrs = set(dotted(x) for x in ast.walk(t.ast) if isinstance(x, ast.Attribute) and dotted(x) in lost_attrs)
+                    if not attrs:
+                        continue
+                    k += 1
+                    run.ob('R03.6', u, f, 'a refusal decided on state the connection loss changes uses the disconnect error', 'TorDisconnectError' in src(f),
+                           slot='late-refusal-error:%s' % u.name,
+                           message='%s refuses a command when %s with %s: connectionLost assigns %s, so every command submitted after the loss fails with that error '
+                                   'instead of the disconnect error' % (u.short, src(t.ast)[:40], src(f)[:50], sorted(attrs)))
+    run.ob('R03.6', cl, cl.node, 'late refusals examined', True)
+
+
 RULES = [
     ('R03.1', 'post-condition of connectionLost on every path: one disconnect notification, in-flight and queued commands errbacked, slot cleared, queue emptied', r03_1),
     ('R03.4', 'order inside connectionLost: snapshot after the last observer notification; no partial operation (unpack of split, int()) inside the errback loop', r03_4),
     ('R03.5', 'in-flight slot discipline of _maybe_issue_command (R01.4 borrowed)', r03_5),
+    ('R03.6', 'connectionLost consumes no input (call closure); refusals on state the loss changes use the disconnect error', r03_6),
     ('R03.2', 'typestate of the in-flight slot in _maybe_issue_command: taken => written or released on every path', r03_2),
     ('R03.3', 'dominance: the transport write lies behind the not-disconnected test', r03_3),
     ('R-SO', 'SingleObserver is guard-and-latch; every .fire receiver is a SingleObserver field', r_so),
@@ -312,6 +350,8 @@ RULES = [
 from ..selftest import M  # noqa: E402
 F = 'txtorcon/torcontrolprotocol.py'
 MUTANTS = [
+    M('loss-flushes-line-buffer', F, "        txtorlog.msg('connection terminated: ' + str(reason))\n", "        txtorlog.msg('connection terminated: ' + str(reason))\n        tail, self._buffer = self._buffer, b''\n        if tail[3:4] == b' ':\n            self.lineReceived(tail)\n", ['R03.6']),
+    M('late-submission-plain-error', F, ["        d = defer.Deferred()\n        self.commands.append((d, cmd, arg))", "        self.commands = []\n        for d, cmd, cmd_arg in outstanding:"], ["        if self.commands is None:\n            return defer.fail(RuntimeError('not connected'))\n        d = defer.Deferred()\n        self.commands.append((d, cmd, arg))", "        self.commands = None\n        for d, cmd, cmd_arg in outstanding:"], ['R03.6']),
     M('issue-command-takes-argument', 'txtorcon/torcontrolprotocol.py', "    def _maybe_issue_command(self):\n", "    def _maybe_issue_command(self, force):\n", ['R-X']),
     M('errback-only-if-observed', F, "            if not d.called:\n                d.errback(", "            if not d.called and d.callbacks:\n                d.errback(", ['R03.1']),
     M('queue-not-emptied', F, "        self.defer = None\n        self.commands = []\n", "        self.defer = None\n", ['R03.1']),
